@@ -48,6 +48,49 @@ def from_design(args):
     return ev
 
 
+def from_retry(args):
+    """A faulty design: to_proto is attempted repeatedly on the same objects (and on a parent re-using its cells); every package
+    that any attempt returns joins the corpus."""
+    tid, fam, D = args
+    from ..hd import h
+    out = []
+    try:
+        top = build(h, D, "proc")
+    except Exception:
+        return out
+    for attempt in range(3):
+        try:
+            pkg = h.to_proto(top)
+        except Exception:
+            continue
+        ev = {"tid": tid, "src": f"retry{attempt}:" + fam, "P": proj_package(pkg, D["top"])}
+        ev.update(check_pkg(h, pkg))
+        out.append(ev)
+        break
+    return out
+
+
+def from_rebinding(args):
+    """Modules built by re-using an attribute name for an object of another kind, then exported."""
+    k1, k2 = args
+    from ..hd import h
+    from .c18 import _make, _mk_env
+    h2, leaf, bund = _mk_env()
+    m = h.Module(name="Rebind")
+    m.keep = h.Signal()
+    try:
+        setattr(m, "a", _make(h, leaf, bund, k1, None))
+        setattr(m, "a", _make(h, leaf, bund, k2, None))
+        m.add(_make(h, leaf, bund, k1, None), name="b")
+        m.add(_make(h, leaf, bund, k2, "b"))
+        pkg = h.to_proto(m)
+    except Exception:
+        return []
+    ev = {"src": f"rebinding:{k1}->{k2}", "P": proj_package(pkg, None)}
+    ev.update(check_pkg(h, pkg))
+    return [ev]
+
+
 def from_example(name):
     """Run one example's main() with the export hook installed; return one event per exported package."""
     from ..hd import h
@@ -125,6 +168,18 @@ def run(tier, seed, replay_file=None):
     if tier == "quick":
         designs = rnd.sample(designs, min(1500, len(designs)))
     evs = [e for e in pool_map(from_design, [(i, f, D) for i, (f, D) in enumerate(designs)], chunksize=32) if e]
+    from .. import faults
+    base = universe.all_designs(tier, seed)
+    planted = faults.plant_all(base, "quick", rnd)
+    if tier == "quick":
+        planted = rnd.sample(planted, min(1200, len(planted)))
+    for out in pool_map(from_retry, [(i, f, D) for i, (f, D) in enumerate(planted)], chunksize=32):
+        evs += out
+    o.cover["retry_after_failure_designs"] = len(planted)
+    kinds = ["port", "signal", "inst", "array", "pair", "bundle"]
+    for out in pool_map(from_rebinding, [(a, b) for a in kinds for b in kinds]):
+        evs += out
+        o.cover["rebinding"] = o.cover.get("rebinding", 0) + len(out)
     examples = ["ro", "rdac", "encoder", "mos_sim", "diff_ota", "idac", "bundles"]
     ex_errors = {}
     for (out, err), name in zip(pool_map(_ex_worker, examples, jobs=7), examples):
@@ -162,14 +217,14 @@ def run(tier, seed, replay_file=None):
         key = json.dumps(e["P"], sort_keys=True)
         if key not in seen and any(m["insts"] for m in e["P"]["mods"].values()):
             seen.add(key)
-        src = e["src"].split(":")[0]
+        src = e["src"].split(":")[0].rstrip("0123456789")
         o.cover["src_" + src] = o.cover.get("src_" + src, 0) + 1
         ok, clause = verdicts[i]
         if not ok:
             o.violations.append(Violation(clause=clause.split(":")[0], case={"source": e["src"], "P": e["P"]},
                                           features=["src_" + src, clause], detail=e.get("why")))
     o.distinct_nontrivial = len(seen)
-    o.required_cover = ["example_ro", "example_rdac", "example_encoder", "example_diff_ota", "example_idac", "example_bundles", "builtin", "src_U_sig", "src_U_bundle"]
+    o.required_cover = ["example_ro", "example_rdac", "example_encoder", "example_diff_ota", "example_idac", "example_bundles", "builtin", "src_U_sig", "src_U_bundle", "rebinding", "retry_after_failure_designs"]
     for i in rnd.sample(range(len(evs)), 2):
         o.samples.append({"source": evs[i]["src"], "modules": evs[i]["P"]["order"], "verdict": verdicts[i]})
     return o
